@@ -11,7 +11,7 @@ import pandas as pd
 
 from auditsim import repo as R
 from auditsim import world as W
-from auditsim.log import Outcome, same
+from auditsim.log import Outcome, same, tight
 
 PROP = "C07"
 TIERS = {
@@ -19,9 +19,11 @@ TIERS = {
     "thorough": {"budget_s": 600, "chunk": 500, "max_cards": 160},
 }
 RULE = ("one run = one seeded world (cards with arbitrary styles incl. cards listing no contest and phantoms, "
-        "1-4 contests, a draw order, a size vector 0<=n_c<=#cards listing c) pushed through the real sampler and "
-        "data pipeline; non-trivial = at least two contests with different styles competing for cards, or a "
-        "fault fired (records returned out of order, votes replaced); distinct = distinct event-log digest")
+        "1-4 contests, a draw order, a size vector 0<=n_c<=#cards listing c, up to two continuing calls) pushed through "
+        "the real sampler and data pipeline; non-trivial = at least two contests with different styles competing for "
+        "cards, a card skipped because its contests were finished, a continuing call that added cards, or a fault that "
+        "fired on a sampled card (records returned out of order, card not found, record lacking a contest); distinct = "
+        "distinct event-log digest")
 ASSUMPTIONS = [
     "sample numbers are distinct (as the statement requires); 256-bit SHA-256 outputs collide with negligible probability",
     "contest identifiers used as dict keys equal Contest.id (as Contest.from_dict_of_dicts guarantees)",
@@ -36,7 +38,9 @@ COMPONENTS = {
 }
 PROBES = ["card skipped by sampler (all its contests finished)", "card listing no contest", "phantom sampled",
           "contest with n_c=0", "contest taking every card", "records returned out of order",
-          "two contests share threshold card", "continued call added cards", "sample numbers equal as floats"]
+          "two contests share threshold card", "continued call added cards", "sample numbers equal as floats",
+          "second draw on the same contests with new numbers", "list sorted in place between draws",
+          "size beyond the number of real CVRs (phantoms needed)"]
 
 
 class SchedPrng:
@@ -130,6 +134,14 @@ def generate(rng, tier):
     return {"contests": contests, "cards": cards, "alt": alt, "numbering": numbering, "sizes": sizes, "sizes_next": nxt,
             "pipeline": rng.chance(0.35), "return_order": rng.perm(ncards), "mvr_from_alt": rng.chance(0.5),
             # auditors' faults on the manual records: card not found (phantom record), record lacks a contest
+            # a second, independent draw on the same Contest objects and the same list (a pilot, then the real draw):
+            # new numbers, optionally after the list was sorted in place by its old numbers
+            "redraw": ({"numbers": rng.sample(range(0, 50 * ncards + 7), ncards), "sort_first": rng.chance(0.5),
+                        "sizes": {cid: rng.randint(0, sum(1 for c in cards if cid in c["votes"])) for cid in cids}}
+                       if rng.chance(0.4) else None),
+            # phantoms created by the library itself (sets Contest.cvrs / Contest.cards) before sampling
+            "lib_phantoms": ({"shortfall": {cid: rng.randint(0, 3) for cid in cids}, "seed": rng.getrandbits(48),
+                              "extra": {cid: rng.randint(0, 3) for cid in cids}} if rng.chance(0.35) else None),
             "mvr_phantom": [i for i in range(ncards) if rng.chance(0.1)],
             "mvr_drop": {str(i): rng.pick(cids) for i in range(ncards) if rng.chance(0.12)}}
 
@@ -278,6 +290,94 @@ def execute(case):
         for c, f in zip(cvrs, flags0):
             c.sampled = f
 
+    # ---- C07.h a fresh draw with other numbers on the same Contest objects and the same list object
+    rd = case.get("redraw")
+    if rd and idx == ref_idx:
+        keep_nums = [c.sample_num for c in cvrs]
+        keep_thr = {cid: con.sample_threshold for cid, con in contests.items()}
+        keep_flags = [c.sampled for c in cvrs]
+        order_now = list(range(len(cvrs)))
+        lst = cvrs  # the same list object throughout
+        if rd["sort_first"]:
+            pos = sorted(range(len(lst)), key=lambda i: lst[i].sample_num)
+            ns.CVR.sort_cvr_sample_num(lst)
+            order_now = pos
+            out.probe("list sorted in place between draws")
+        cards_now = [cards[i] for i in order_now]
+        new_nums = [rd["numbers"][i] for i in order_now]
+        for c, n in zip(lst, new_nums):
+            c.sample_num = n
+        for cid, con in contests.items():
+            con.sample_size = min(rd["sizes"].get(cid, 0), sum(1 for c in cards_now if cid in c["votes"]))
+        sz2 = {cid: con.sample_size for cid, con in contests.items()}
+        r_idx, r_thr, _ = reference(cards_now, new_nums, sz2)
+        out.units["sampler_calls"] += 1
+        try:
+            got = [int(i) for i in ns.CVR.consistent_sampling(cvr_list=lst, contests=contests)]
+            out.ev("redrawn", got)
+            out.shape("redraw")
+            out.probe("second draw on the same contests with new numbers")
+            if got != r_idx:
+                out.violate("C07.h", "redraw/selection" if sorted(got) != sorted(r_idx) else "redraw/order",
+                            f"a fresh draw with new sample numbers on the same contests selected {got}; the union of "
+                            f"per-contest prefixes is {r_idx} (sizes {sz2}, list sorted in place first: {rd['sort_first']})")
+            else:
+                bad = [c for c in r_thr if contests[c].sample_threshold != r_thr[c]]
+                if bad:
+                    out.violate("C07.h", "redraw/threshold", f"after a fresh draw with new numbers the threshold of {bad[0]} is "
+                                                             f"{contests[bad[0]].sample_threshold}, its n-th card has {r_thr[bad[0]]}")
+        except Exception as e:
+            out.raised("consistent_sampling(redraw)", e)
+            out.violate("C07.h", f"redraw/raised-{type(e).__name__}", f"a fresh draw with new numbers raised {e!r}")
+        # restore list order, numbers and state for the clauses below
+        if rd["sort_first"]:
+            inv = [None] * len(lst)
+            for new_pos, old_i in enumerate(order_now):
+                inv[old_i] = lst[new_pos]
+            lst[:] = inv
+        for c, n, f in zip(lst, keep_nums, keep_flags):
+            c.sample_num = n
+            c.sampled = f
+        for cid, con in contests.items():
+            con.sample_size = sizes[cid]
+            con.sample_threshold = keep_thr[cid]
+
+    # ---- C07.i phantoms made by the library (which records Contest.cvrs), then sizes beyond the number of real CVRs
+    lp = case.get("lib_phantoms")
+    real = [c for c in cards if not c.get("phantom")]
+    if lp and real:
+        w2 = {"use_style": True, "max_cards": len(real) + max(lp["shortfall"].values()), "contests": copy.deepcopy(case["contests"])}
+        for cid, cs in w2["contests"].items():
+            cs["cards"] = sum(1 for c in real if cid in c["votes"]) + lp["shortfall"][cid]
+        a2 = W.mk_audit(ns, w2)
+        con2 = W.mk_contests(ns, w2, with_assertions=False)
+        try:
+            with W.quiet():
+                lst2, _n = ns.CVR.make_phantoms(audit=a2, contests=con2, cvr_list=W.mk_cvrs(ns, real), prefix="phantom-1-")
+                ns.CVR.assign_sample_nums(lst2, ns.SHA256(lp["seed"]))
+            cards2 = [{"votes": dict(c.votes)} for c in lst2]
+            nums2 = [c.sample_num for c in lst2]
+            sz = {}
+            for cid, con in con2.items():
+                avail = sum(1 for c in cards2 if cid in c["votes"])
+                n_real = sum(1 for c in real if cid in c["votes"])
+                sz[cid] = min(avail, n_real + lp["extra"][cid]) if avail else 0
+                con.sample_size = sz[cid]
+                if sz[cid] > n_real:
+                    out.probe("size beyond the number of real CVRs (phantoms needed)")
+            r_idx, r_thr, _ = reference(cards2, nums2, sz)
+            got = [int(i) for i in ns.CVR.consistent_sampling(cvr_list=lst2, contests=con2)]
+            out.ev("lib-phantoms", [sz, got])
+            out.units["sampler_calls"] += 1
+            if got != r_idx:
+                out.violate("C07.i", "lib-phantoms/selection", f"with phantoms made by make_phantoms and sizes {sz} the sampler "
+                                                               f"selected {got}; the union of per-contest prefixes is {r_idx}")
+            elif any(con2[c].sample_threshold != r_thr[c] for c in r_thr):
+                out.violate("C07.i", "lib-phantoms/threshold", f"thresholds {[(c, con2[c].sample_threshold) for c in r_thr]} expected {r_thr}")
+        except Exception as e:
+            out.raised("make_phantoms+consistent_sampling", e)
+            out.violate("C07.i", f"lib-phantoms/raised-{type(e).__name__}", f"sampling after make_phantoms raised {e!r}")
+
     # ---- C07.d numbering is a function of (seed, position) only
     if case["numbering"]["mode"] in ("sha256", "sched"):
         other = W.mk_cvrs(ns, case["alt"])
@@ -375,7 +475,7 @@ def execute(case):
                     out.violate("C07.f", f"raised-{type(e).__name__}", f"mvrs_to_data raised {e!r}")
                     continue
                 out.ev("data", [cid, key, [float(x) for x in d]])
-                if len(d) != len(exp) or any(not same(a, b) for a, b in zip(d, exp)):
+                if len(d) != len(exp) or any(not tight(a, b) for a, b in zip(d, exp)):
                     out.violate("C07.f", "data", f"assertion {key} of {cid} sees {len(d)} values "
                                                  f"{[float(x) for x in d][:8]}; its {sizes[cid]} cards give "
                                                  f"{[float(x) for x in exp][:8]}")
@@ -407,6 +507,8 @@ def reducers(case):
         if "numbers" in c["numbering"]:
             del c["numbering"]["numbers"][i]
         c["return_order"] = [j for j in c["return_order"] if j < n - 1]
+        if c.get("redraw"):
+            del c["redraw"]["numbers"][i]
         c["mvr_phantom"] = [j - (j > i) for j in c.get("mvr_phantom", []) if j != i]
         c["mvr_drop"] = {str(int(j) - (int(j) > i)): v for j, v in c.get("mvr_drop", {}).items() if int(j) != i}
         yield _clamp(c)
@@ -423,6 +525,11 @@ def reducers(case):
         del c["sizes"][cid]
         for sz in c.get("sizes_next", []):
             sz.pop(cid, None)
+        if c.get("redraw"):
+            c["redraw"]["sizes"].pop(cid, None)
+        if c.get("lib_phantoms"):
+            c["lib_phantoms"]["shortfall"].pop(cid, None)
+            c["lib_phantoms"]["extra"].pop(cid, None)
         for lst in (c["cards"], c["alt"]):
             for card in lst:
                 card["votes"].pop(cid, None)
@@ -447,6 +554,11 @@ def reducers(case):
         if [ranks[v] for v in nums] != list(nums):
             c = copy.deepcopy(case)
             c["numbering"]["numbers"] = [ranks[v] for v in nums]
+            yield c
+    for key in ("redraw", "lib_phantoms"):
+        if case.get(key):
+            c = copy.deepcopy(case)
+            c[key] = None
             yield c
     if case.get("mvr_phantom"):
         c = copy.deepcopy(case)
